@@ -1,7 +1,7 @@
 (* C02 - each step solves the discretised TDGL equation on the physical branch.
    Property theorems only; proofs live in Proofs/EulerR.v. *)
 From Coq Require Import Reals List.
-From PyTdgl Require Import Base.Ops Base.Cplx Model.Euler Proofs.EulerR.
+From PyTdgl Require Import Base.Ops Base.Cplx Model.Euler Proofs.EulerR Proofs.EulerNum.
 Open Scope R_scope.
 
 (* the code's z and w are the documented ones *)
@@ -46,6 +46,24 @@ Theorem C02_all_sites_or_refuse :
       Exists (fun s => site_update OpsR (i_U _ s) (i_psi _ s) (i_abs2 _ s) (i_eps _ s) gamma u dt (i_lap _ s) = None) l).
 Proof. exact sites_update_spec. Qed.
 Print Assumptions C02_all_sites_or_refuse.
+
+(* the quadratic form with the documented z, w IS the discretised TDGL equation (docs eq. tdgl-num), for any
+   unimodular temporal link: the two are equivalent, and what the code answers solves tdgl-num *)
+Theorem C02_update_tdgl_num :
+  forall (U psi lap p : C OpsR) (x abs2 eps gamma u dt : R),
+    cabs2 OpsR U = 1 -> 0 <= abs2 -> 0 < u -> 0 < dt ->
+    (cadd OpsR p (cscale OpsR x (z_doc OpsR U psi gamma)) = w_doc OpsR U psi abs2 eps gamma u dt lap
+     <-> tdgl_num_lhs U psi p x abs2 gamma u dt = tdgl_num_rhs psi lap abs2 eps).
+Proof. exact update_tdgl_num. Qed.
+Print Assumptions C02_update_tdgl_num.
+
+Theorem C02_answered_solves_tdgl_num :
+  forall (U psi lap p : C OpsR) (x abs2 eps gamma u dt : R),
+    cabs2 OpsR U = 1 -> 0 <= abs2 -> 0 < u -> 0 < dt ->
+    site_update OpsR U psi abs2 eps gamma u dt lap = Some (x, p) ->
+    tdgl_num_lhs U psi p (cabs2 OpsR p) abs2 gamma u dt = tdgl_num_rhs psi lap abs2 eps.
+Proof. exact answered_solves_tdgl_num. Qed.
+Print Assumptions C02_answered_solves_tdgl_num.
 
 (* non-vacuity: a concrete answered site *)
 Example C02_nonvacuous : exists x p, site_update OpsR (1,0) (1,0) 1 1 1 1 1 (0,0) = Some (x, p).
